@@ -85,6 +85,8 @@ pub struct Hist {
     /// C16: high-water mark of reachable nodes since the last clear / rebuild
     pub hw_reach: usize,
     pub is_set: bool,
+    /// skip the state-level query sweeps in `step` (the caller runs `state_checks` itself)
+    pub light: bool,
 }
 
 fn owners_of_oracle_panic(msg: &str) -> &'static [&'static str] {
@@ -109,7 +111,7 @@ impl Hist {
     pub fn new(mut w: Box<dyn WorldApi>, prop: &str, is_set: bool, g: Gen, replay: serde_json::Value) -> Hist {
         w.reset(2, 2);
         let (slot, scratch) = if is_set { (Slot::Set(0), Slot::Set(1)) } else { (Slot::Map(0), Slot::Map(1)) };
-        Hist { w, slot, scratch, m: Model::new(), g, f: Flags::for_prop(prop), prop: prop.to_string(), canonical: true, recent: VecDeque::new(), step_no: 0, replay, sweep_every: 1, hw_reach: 1, is_set }
+        Hist { w, slot, scratch, m: Model::new(), g, f: Flags::for_prop(prop), prop: prop.to_string(), canonical: true, recent: VecDeque::new(), step_no: 0, replay, sweep_every: 1, hw_reach: 1, is_set, light: false }
     }
 
     fn replay_info(&self) -> serde_json::Value {
@@ -274,20 +276,11 @@ impl Hist {
                 }
             };
         }
-        let full = self.step_no % self.sweep_every == 0;
-        let qs = self.queries(op, full);
-        ev.count("queries_swept", qs.len() as u64);
-        if full {
-            ev.count("full_universe_sweeps", 1);
+        if !self.light {
+            if let Flow::Stop = self.query_checks(ev, op, &post_shape) {
+                return Flow::Stop;
+            }
         }
-        run!(self.f.exact, "exact-sweep", self.check_exact(&qs));
-        run!(self.f.repr, "repr-sweep", self.check_repr(&qs));
-        run!(self.f.lpm, "lpm-sweep", self.check_lpm(&qs));
-        run!(self.f.cover, "cover-sweep", self.check_cover(&qs));
-        run!(self.f.child, "children-sweep", self.check_children(&qs));
-        run!(self.f.iter, "traversals", self.check_iter());
-        run!(self.f.len, "len", self.check_len());
-        run!(self.f.view || self.f.find, "views", self.check_views(ev, &qs, &post_shape));
         if self.f.muta && wrote {
             // writes must not change the key set, the shape or len()
             if shape_sig != crate::hist::shape_sig(&pre_shape) {
@@ -303,6 +296,56 @@ impl Hist {
         run!(self.f.arena, "arena", self.check_arena(ev, op, &post_shape));
         run!(self.f.clone, "clone", self.check_clone(ev));
         Flow::Continue
+    }
+
+
+    /// the oracles that are functions of the state alone (query sweeps, traversals, views)
+    pub fn query_checks(&mut self, ev: &mut Ev, op: &Op, post_shape: &[ShapeNode]) -> Flow {
+        macro_rules! run {
+            ($flag:expr, $name:expr, $call:expr) => {
+                if $flag {
+                    match guarded(|| $call) {
+                        Ok(mut b) => {
+                            if let Some((s, m)) = b.drain(..).next() {
+                                self.viol(ev, &s, m);
+                                return Flow::Stop;
+                            }
+                        }
+                        Err(p) => return self.on_panic(ev, &p, $name, true),
+                    }
+                }
+            };
+        }
+        let full = self.step_no % self.sweep_every == 0;
+        let qs = self.queries(op, full);
+        ev.count("queries_swept", qs.len() as u64);
+        if full {
+            ev.count("full_universe_sweeps", 1);
+        }
+        run!(self.f.exact, "exact-sweep", self.check_exact(&qs));
+        run!(self.f.repr, "repr-sweep", self.check_repr(&qs));
+        run!(self.f.lpm, "lpm-sweep", self.check_lpm(&qs));
+        run!(self.f.cover, "cover-sweep", self.check_cover(&qs));
+        run!(self.f.child, "children-sweep", self.check_children(&qs));
+        run!(self.f.iter, "traversals", self.check_iter());
+        run!(self.f.len, "len", self.check_len());
+        run!(self.f.view || self.f.find, "views", self.check_views(ev, &qs, post_shape));
+        Flow::Continue
+    }
+
+    /// run the state-level oracles on the current state (used by the systematic sweep for new states)
+    pub fn state_checks(&mut self, ev: &mut Ev) -> Flow {
+        let shape = match guarded(|| self.w.shape(self.slot)) {
+            Ok(s) => s,
+            Err(p) => return self.on_panic(ev, &p, "shape-walk", self.f.shape),
+        };
+        let op = Op::Clear; // only used to pick targeted queries; sweeps here are full
+        let keep = self.sweep_every;
+        self.sweep_every = 1;
+        self.step_no = self.step_no.max(1);
+        let r = self.query_checks(ev, &op, &shape);
+        self.sweep_every = keep;
+        r
     }
 
     fn sig_owned(&self, sig: &str) -> bool {
